@@ -145,19 +145,24 @@ struct FaultyIds {
 }
 
 fn kerr(v: u8) -> KeyStorageError {
-  KeyStorageError::new(match v % 3 {
+  // any failure kind counts, including the kinds a backend uses for "no such entry" (a store that lost sight of an entry is a fault too)
+  KeyStorageError::new(match v % 5 {
     0 => KeyStorageErrorKind::RetryableIOFailure,
     1 => KeyStorageErrorKind::Unavailable,
-    _ => KeyStorageErrorKind::Unauthenticated,
+    2 => KeyStorageErrorKind::Unauthenticated,
+    3 => KeyStorageErrorKind::KeyNotFound,
+    _ => KeyStorageErrorKind::Unspecified,
   })
   .with_custom_message("injected fault")
 }
 
 fn ierr(v: u8) -> KeyIdStorageError {
-  KeyIdStorageError::new(match v % 3 {
+  KeyIdStorageError::new(match v % 5 {
     0 => KeyIdStorageErrorKind::RetryableIOFailure,
     1 => KeyIdStorageErrorKind::Unavailable,
-    _ => KeyIdStorageErrorKind::Unspecified,
+    2 => KeyIdStorageErrorKind::Unspecified,
+    3 => KeyIdStorageErrorKind::KeyIdNotFound,
+    _ => KeyIdStorageErrorKind::KeyIdAlreadyExists,
   })
   .with_custom_message("injected fault")
 }
@@ -1267,7 +1272,7 @@ fn run_scenario<D: Doc>(cx: &mut Cx, sc: &Scenario, idx: u64) {
       let mut setup_failed = false;
       let (n, universe) = enumerate_plans(|plan| {
         let env = Env::new();
-        env.set_err_variant((idx % 3) as u8);
+        env.set_err_variant((idx % 5) as u8);
         let mut doc = D::empty();
         let mut ok = true;
         match class {
@@ -1315,7 +1320,7 @@ fn run_scenario<D: Doc>(cx: &mut Cx, sc: &Scenario, idx: u64) {
       let mut setup_failed = false;
       let (n, universe) = enumerate_plans(|plan| {
         let env = Env::new();
-        env.set_err_variant((idx % 3) as u8);
+        env.set_err_variant((idx % 5) as u8);
         let mut doc = D::empty();
         let mut ok = true;
         if *populated {
@@ -1360,7 +1365,7 @@ fn run_scenario<D: Doc>(cx: &mut Cx, sc: &Scenario, idx: u64) {
 
 fn history<D: Doc>(cx: &mut Cx, rng: &mut Rng, hid: u64) {
   let env = Env::new();
-  env.set_err_variant(rng.below(3) as u8);
+  env.set_err_variant(rng.below(5) as u8);
   let mut doc = D::empty();
   if rng.bool() && !populate(&mut doc, &env) {
     cx.rep.inc("setup_failed");
